@@ -211,9 +211,91 @@ def run_corpus_case(case):
     return True, problems
 
 
+# -- how the output callback is represented ------------------------------------------------------
+class _CallableList(list):
+    """A collection that collects: callable, and falsy while empty."""
+
+    def __call__(self, picture, video_parameters, picture_coding_mode):
+        self.append(picture["pic_num"])
+
+
+class _FalsyCallable(object):
+    def __init__(self):
+        self.got = []
+
+    def __bool__(self):
+        return False
+
+    def __call__(self, picture, video_parameters, picture_coding_mode):
+        self.got.append(picture["pic_num"])
+
+
+class _Method(object):
+    def __init__(self):
+        self.got = []
+
+    def cb(self, picture, video_parameters, picture_coding_mode):
+        self.got.append(picture["pic_num"])
+
+
+CALLBACK_KINDS = ["function", "bound-method", "partial", "callable-list", "falsy-callable", "absent"]
+
+
+def run_callback_case(si, kind):
+    """Decode an unmodified seed stream with the output callback given in another representation:
+    one call per picture whatever the object looks like (none if the entry is absent)."""
+    import functools
+    import io
+
+    from vc2_conformance import decoder
+    from vc2_conformance.pseudocode.state import State
+
+    data = corpus.materialise((si, "id"))
+    want = expected_picture_count(data)
+    got = None
+    if kind == "function":
+        acc = []
+        state = State(_output_picture_callback=lambda p, v, m: acc.append(p["pic_num"]))
+        got = acc
+    elif kind == "bound-method":
+        o = _Method()
+        state = State(_output_picture_callback=o.cb)
+        got = o.got
+    elif kind == "partial":
+        acc = []
+        state = State(_output_picture_callback=functools.partial(lambda tag, p, v, m: acc.append(p["pic_num"]), "x"))
+        got = acc
+    elif kind == "callable-list":
+        o = _CallableList()
+        state = State(_output_picture_callback=o)
+        got = o
+    elif kind == "falsy-callable":
+        o = _FalsyCallable()
+        state = State(_output_picture_callback=o)
+        got = o.got
+    else:
+        state = State()
+    try:
+        decoder.init_io(state, io.BytesIO(data))
+        decoder.parse_stream(state)
+    except decoder.ConformanceError:
+        return None, []
+    if got is not None and len(got) != want:
+        return True, ["callback given as %s: called %d times for %d pictures" % (kind, len(got), want)]
+    return True, []
+
+
 def _shard(arg):
     tier, w, n = arg
     t = Tally()
+    if w == 0:
+        for si in range(len(corpus.seeds())):
+            for kind in CALLBACK_KINDS:
+                acc, problems = run_callback_case(si, kind)
+                if acc:
+                    t.count("callback_cases")
+                if problems:
+                    t.violation("seed %d: %s" % (si, problems[0]), {"callback": [si, kind]})
     cfgs = config_list(tier)
     for i in range(w, len(cfgs), n):
         cfg = cfgs[i]
@@ -257,6 +339,8 @@ def run(ctx):
 
 
 def replay_case(case):
+    if "callback" in case:
+        return run_callback_case(*case["callback"])[1]
     if "builder" in case:
         return run_builder_config(tuple(case["builder"]), case["full"])[0]
     c = tuple(tuple(x) if isinstance(x, list) else x for x in case["corpus"])
